@@ -441,7 +441,10 @@ class TxPipeline(Elaboratable):
             # Send a data strobe when we're two bits from the end of the sync pulse.
             # This is because the pipeline takes two bit times, and we want to ensure the pipeline
             # has spooled up enough by the time we're there.
-            bitstuff.i_data.eq(shifter.o_data),
+            # The bit stuffer must only see the bits that actually go out: the 1 that ends SYNC (which counts
+            # towards the run of six 1s, [USB2.0: 7.1.9]) and the data bits -- not whatever the free-running
+            # shifter picks up from the data input while we're idle or sending SYNC.
+            bitstuff.i_data.eq((shifter.o_data & state_data) | sp_bit),
 
             stall.eq(bitstuff.o_stall),
 
